@@ -284,7 +284,14 @@ func runC19(cfg runCfg) error {
 			}
 		}
 		world.reset()
-		resp, err := gw.do(context.Background(), c19Probe, nil, "", hdr)
+		viaGET := r.Intn(4) == 0 // the operation in the query string of a GET request
+		var resp *gwResponse
+		if viaGET {
+			resp, err = gw.doGET(context.Background(), c19Probe, hdr)
+			sum.Features["via_GET"]++
+		} else {
+			resp, err = gw.do(context.Background(), c19Probe, nil, "", hdr)
+		}
 		if err != nil {
 			return err
 		}
@@ -335,7 +342,7 @@ func runC19(cfg runCfg) error {
 		w.add(name, "{| jc_cfg := {| j_keys := "+cstrlist(cfgKeys)+"; j_roles := "+clist(rl)+" |}; jc_presented := "+pres+
 			"; obs_status := "+fmt.Sprint(resp.Status)+"; obs_downstream := "+fmt.Sprint(len(reqs))+"; obs_perms := "+applied+
 			"; obs_headers := "+clist(seenHdrs)+"; obs_headers_uniform := "+cbool(len(hdrSets) <= 1)+" |}")
-		in := map[string]interface{}{"defect": defect, "via_cookie": viaCookie, "roles": roles, "keys": cfgKeys, "role_claim": claims.Role, "status": resp.Status, "downstream_requests": len(reqs),
+		in := map[string]interface{}{"defect": defect, "via_cookie": viaCookie, "http_method_GET": viaGET, "roles": roles, "keys": cfgKeys, "role_claim": claims.Role, "status": resp.Status, "downstream_requests": len(reqs),
 			"history": fmt.Sprintf("request %d on the plugin instance first used by case c19-%d-%d; replay the cases from there in order", ci-instFirst+1, cfg.seed, instFirst)}
 		sum.CaseInputs[name] = in
 		sum.Features["defect_"+defect]++
